@@ -212,7 +212,7 @@ class CHECK(Check):
             body = rng.choice(["", " ", "  "]) + rng.choice(["", "-", "+"]) + "".join(rng.choice("0123456789") for _ in range(rng.randint(0, 6)))
             if k == "float" or rng.random() < 0.2:
                 body += rng.choice(["", ".", ",", fd.get("sep", ".")]) + "".join(rng.choice("0123456789") for _ in range(rng.randint(0, 4)))
-                body += rng.choice(["", "", "e5", "E-3", "e", "e+1"])
+                body += rng.choice(["", "", "e5", "E-3", "e", "e+1", "d5", "D-3", "D+03", "d"])
             body += rng.choice(["", " ", "\n"])
         else:
             body = "".join(rng.choice("abc xyz 01\t") for _ in range(rng.randint(0, n)))
